@@ -120,8 +120,8 @@ class Machine:
             if inst == "Lui":
                 self.wr(n["rd"], n["imm"])
             elif inst == "Auipc":
-                self.halt = "unsupported-auipc"
-                return
+                # pc-relative: the address of this instruction plus the (already shifted) operand
+                self.wr(n["rd"], (CODE_BASE + 4 * self.pc + n["imm"]) & (M32 - 1))
             else:
                 self.wr(n["rd"], alu(inst[:-1] if inst.endswith("i") else inst, a, n["imm"] & (M32 - 1)))
         elif k == "LoadAddr":
